@@ -10,6 +10,7 @@ import pickle
 
 from vlib.gen import net as gnet, ctrlgen
 from vlib import simobs
+from vlib.props import suite
 
 ID = 'C11'
 LEVEL = 'exploration'
@@ -31,6 +32,10 @@ CASE_TIMEOUT = {'quick': 180, 'thorough': 400}
 
 
 def n_cases(tier):
+    return base_cases(tier) + len(suite.files(tier))     # + the repository's own tests under the monitor (vlib/props/suite.py)
+
+
+def base_cases(tier):
     return 140 if tier == 'quick' else 2000
 
 
@@ -60,6 +65,8 @@ def diff_dict(a, b, path=''):
 
 
 def run_case(c, rng):
+    if suite.maybe_run(c, ID, base_cases(c.tier)):
+        return
     import wntr
     from vlib.props import common
     spec = None
